@@ -47,6 +47,7 @@ type rvalue struct {
 	t    types.Type
 	v    value  // the value (for addressable values: current content is *addr)
 	addr *value // non-nil if addressable/settable
+	ro   bool   // obtained through an unexported struct field: not settable, not usable as a Set source
 }
 
 // opaque is an engine object standing for an external library object with no
